@@ -728,3 +728,27 @@ func Steps() int {
 	}
 	return W.steps
 }
+
+// Idle reports whether every task of the world has ended (kernel context:
+// periodic timers stop re-arming themselves then).
+func Idle() bool {
+	if W == nil {
+		return true
+	}
+	for _, t := range W.tasks {
+		if t.state != tDone {
+			return false
+		}
+	}
+	return true
+}
+
+// SpawnFromEvent creates a task from kernel context (a timer event): no
+// scheduling point, the task becomes runnable at once.
+func SpawnFromEvent(party, site string, fn func()) {
+	w := W
+	if w == nil || w.ended {
+		return
+	}
+	w.newTask(site, party, fn)
+}
